@@ -45,7 +45,8 @@ def parseOpd (t : String) : Except String Opd :=
   let hx (s : String) : Nat := (Driver.parseHex? s).getD 0
   match f with
   | "R" :: name :: rt :: sz :: fl :: rm :: wm :: em :: fixed :: rest =>
-      .ok (.reg name rt.toNat! sz.toNat! (hx fl) (hx rm) (hx wm) (hx em) fixed (String.intercalate ":" rest))
+      -- mask registers report size 0 in their signature: they are 8 bytes
+      .ok (.reg name rt.toNat! (if rt.toNat! == 16 && sz.toNat! == 0 then 8 else sz.toNat!) (hx fl) (hx rm) (hx wm) (hx em) fixed (String.intercalate ":" rest))
   | ["M", sz, sig, base, index, disp, fl] => .ok (.mem sz.toNat! (hx sig) base index (disp.toInt?.getD 0) (hx fl))
   | ["I", v] => .ok (.imm v)
   | ["L", id] => .ok (.label id.toNat!)
@@ -120,9 +121,20 @@ structure Ctx where
   fpId : Nat
   vsize : Array Nat              -- virtual register index -> size
   vstack : Array Bool            -- virtual register is a user stack area
+  word : Nat := 8                -- size of a call argument word
   deriving Inhabited
 
-def Ctx.vsz (c : Ctx) (loc : Nat) : Nat := if loc ≥ preBase then c.vsize.getD (loc - preBase) 0 else 0
+/-- pseudo virtual registers that hold immediates passed as call arguments: `constBase + 2*k (+1 when the value needs 64 bits)` -/
+def constBase : Nat := preBase + 1000000
+
+def Ctx.vsz (c : Ctx) (loc : Nat) : Nat :=
+  if loc ≥ constBase then (if (loc - constBase) % 2 == 0 then min 4 c.word else c.word)
+  else if loc ≥ preBase then c.vsize.getD (loc - preBase) 0 else 0
+
+/-- canonical value of an immediate written into `size` bytes -/
+def immValue (v : String) (size : Nat) : Nat := ((v.toInt?.getD 0) % (2 ^ (8 * size) : Int)).toNat
+
+def constKey (val : Nat) : String := s!"const {val}"
 
 /-- stack slot `[sp|fp + disp]` -/
 def slotLoc (c : Ctx) (base : String) (disp : Int) : Option Nat :=
@@ -178,7 +190,7 @@ def moveCap (n : String) : Nat :=
 /-- instruction names the rewriter may substitute (x86rapass.cpp rewrite(): reg->mem patched forms, VEX->EVEX) -/
 def nameEquiv (pre post : String) : Bool :=
   pre == post ||
-  [("movd", "mov"), ("vmovd", "mov"), ("kmovd", "mov"), ("movq", "mov"), ("vmovq", "mov"), ("kmovq", "mov"), ("kmovb", "movzx"), ("vmovw", "movzx"),
+  [("movd", "mov"), ("vmovd", "mov"), ("kmovd", "mov"), ("movq", "mov"), ("vmovq", "mov"), ("kmovq", "mov"), ("kmovb", "movzx"), ("kmovw", "movzx"), ("vmovw", "movzx"),
    ("vbroadcastf128", "vbroadcastf32x4"), ("vbroadcasti128", "vbroadcasti32x4"), ("vextractf128", "vextractf32x4"), ("vextracti128", "vextracti32x4"),
    ("vinsertf128", "vinsertf32x4"), ("vinserti128", "vinserti32x4"), ("vmovdqa", "vmovdqa32"), ("vmovdqu", "vmovdqu32"), ("vpand", "vpandd"),
    ("vpandn", "vpandnd"), ("vpor", "vpord"), ("vpxor", "vpxord"), ("vroundpd", "vrndscalepd"), ("vroundps", "vrndscaleps"),
@@ -203,7 +215,7 @@ def twinVSize (c : Ctx) : Option Opd → Nat
   | some (.reg name ..) => match virtLoc name with | some l => c.vsz l | none => 0
   | _ => 0
 
-def addReg (c : Ctx) (post : Bool) (t : TI) (name : String) (rtype size flags wmask emask : Nat) (fixed esig : String) (tw : Option Opd) : TI :=
+def addReg (c : Ctx) (post : Bool) (t : TI) (name : String) (rtype size flags rmask wmask emask : Nat) (fixed esig : String) (tw : Option Opd) : TI :=
   match regLoc post name with
   | none => { t with bad := some s!"register {name} in the {if post then "allocated" else "virtual"} program" }
   | some loc =>
@@ -213,8 +225,9 @@ def addReg (c : Ctx) (post : Bool) (t : TI) (name : String) (rtype size flags wm
     let partialW := isW && (byteMask vs &&& ((wmask ||| emask) ^^^ (2 ^ 64 - 1))) != 0
     let t := if isR || partialW then { t with reads := t.reads ++ [loc] } else t
     let t := if isW then { t with writes := t.writes ++ [loc] } else t
-    let t := if size > vs && vs != 0 && isR then { t with bad := some s!"reads {size} bytes of a {vs}-byte virtual register" } else t
-    { t with key := t.key ++ [s!"r{rtype}/{size}/{flags &&& 0x19b}/{if isW then wmask else 0}/{if isW then emask else 0}/{fixed}/{esig}"] }
+    let t := if vs != 0 && isR && (rmask &&& (byteMask vs ^^^ (2 ^ 64 - 1))) != 0 && size > vs then
+      { t with bad := some s!"reads {size} bytes of a {vs}-byte virtual register" } else t
+    { t with key := t.key ++ [s!"r{rtype}/{size}/{flags &&& 0x18b}/{if isW then wmask ||| emask else 0}/{fixed}/{esig}"] }
 
 /-- one operand; `own` = the operand, `tw` = twin operand of the virtual program (same index) -/
 def addOpd (c : Ctx) (post : Bool) (t : TI) (own : Opd) (tw : Option Opd) (isTarget : Bool) : TI :=
@@ -222,7 +235,7 @@ def addOpd (c : Ctx) (post : Bool) (t : TI) (own : Opd) (tw : Option Opd) (isTar
   | .none => { t with key := t.key ++ ["-"] }
   | .imm v => { t with key := t.key ++ [s!"i{v}"] }
   | .label id => if isTarget then { t with key := t.key ++ ["target"] } else { t with key := t.key ++ [s!"l{id}"] }
-  | .reg name rtype size flags _ wmask emask fixed esig => addReg c post t name rtype size flags wmask emask fixed esig tw
+  | .reg name rtype size flags rmask wmask emask fixed esig => addReg c post t name rtype size flags rmask wmask emask fixed esig tw
   | .mem size sig base index disp flags =>
     let memR := flags.testBit 0
     let memW := flags.testBit 1
@@ -239,7 +252,7 @@ def addOpd (c : Ctx) (post : Bool) (t : TI) (own : Opd) (tw : Option Opd) (isTar
         -- a memory operand cannot zero-extend: if the register form extends into live bytes of the virtual register the
         -- two forms are different functions (the key differs, so the pair is refused)
         let lost := memW && (byteMask vs &&& remask &&& (rwmask ^^^ (2 ^ 64 - 1))) != 0
-        { t with key := t.key ++ [s!"r{rtype}/{rsize}/{rflags &&& 0x19b}/{if memW then rwmask else 0}/{if memW then remask else 0}/{rfixed}/{resig}{if lost then "/memform-does-not-zero-extend" else ""}"] }
+        { t with key := t.key ++ [s!"r{rtype}/{rsize}/{rflags &&& 0x18b}/{if memW then rwmask ||| remask else 0}/{rfixed}/{resig}{if lost then "/memform-does-not-zero-extend" else ""}"] }
     | true, none, some sl =>
       -- inserted instruction addressing a stack slot: a location
       let t := if memR then { t with reads := t.reads ++ [sl] } else t
@@ -287,10 +300,44 @@ def stackPairs : List Opd → List Opd → List (String × Int × Int)
   | _ :: os, _ :: ts => stackPairs os ts
   | _, _ => []
 
+/-- how to compute the value an instruction key writes into its (single) register from the values it reads:
+    operand list in order, `some k` = k-th value read, `none`+imm = immediate. Only used by the differential mode. -/
+structure Recipe where
+  name : String
+  size : Nat
+  srcs : List (Option Nat × Int)
+  deriving Inhabited, Repr
+
 structure Prog2 where
   insts : Array Inst := #[]
   tags : Array Nat := #[]
+  recipes : List (String × Recipe) := []
   deriving Inhabited
+
+def concreteNames : List String :=
+  ["mov", "add", "sub", "and", "or", "xor", "imul", "shl", "shr", "orr", "eor", "mul", "lsl", "lsr", "madd", "neg", "not", "mvn", "inc", "dec"]
+
+/-- recipe of a register/immediate-only instruction whose operand 0 is the only register written (and fully written) -/
+def mkRecipe (name : String) (ops : List Opd) (nReads : Nat) : Option Recipe :=
+  if !concreteNames.contains name then none else
+  match ops with
+  | (.reg _ _ sz fl0 _ wm em _ _) :: _ =>
+    if !(fl0.testBit 1) || (sz != 4 && sz != 8) || (byteMask 8 &&& ((wm ||| em) ^^^ (2 ^ 64 - 1))) != 0 && sz == 8 then none else
+    let go := ops.foldl (fun (acc : Option (List (Option Nat × Int) × Nat × Nat)) o =>
+      match acc with
+      | none => none
+      | some (l, k, j) =>
+        match o with
+        | .reg _ _ osz fl _ _ _ _ _ =>
+          if osz != sz then none
+          else if j != 0 && fl.testBit 1 then none
+          else if fl.testBit 0 then some (l ++ [(some k, 0)], k + 1, j + 1) else some (l ++ [(none, 0)], k, j + 1)
+        | .imm v => some (l ++ [(none, v.toInt?.getD 0)], k, j + 1)
+        | _ => none) (some ([], 0, 0))
+    match go with
+    | some (l, k, _) => if k == nReads then some { name, size := sz, srcs := l } else none
+    | none => none
+  | _ => none
 
 def callClobbers (clob : String) : List Nat :=
   let gs := splitOn1 clob '.'
@@ -309,16 +356,21 @@ def translate (c : Ctx) (post : Bool) (nodes : Array Node) (twinOf : Nat → Opt
   -- label -> pc
   let mut pc := 0
   let mut labels : List (Nat × Nat) := []
+  let nImm (n : Node) : Nat := if !post && n.kind == 'C' then (((n.ops.drop 1).take n.nargs).filter fun o => match o with | .imm _ => true | _ => false).length else 0
   for n in nodes do
-    if n.kind == 'B' then labels := (n.label, pc) :: labels else pc := pc + 1
+    if n.kind == 'B' then labels := (n.label, pc) :: labels else pc := pc + 1 + nImm n
   let target (id : Nat) : Except String Nat :=
     match labels.lookup id with
     | some p => .ok p
     | none => .error s!"unsupported label {id} is not bound inside the function"
   let mut out : Prog2 := {}
   let mut spairs : List (String × Int × Int) := []
+  -- allocated program only: registers known to hold the address of a stack slot (`lea reg, [sp + X]` inserted by the allocator)
+  let mut addrOf : List (Nat × Nat) := []
   for n in nodes do
-    if n.kind == 'B' then continue
+    if n.kind == 'B' then
+      addrOf := []
+      continue
     let tw : Option Node := if post && n.tag != 0 then twinOf n.tag else none
     let twOps : List Opd := match tw with | some t => t.ops | none => (if post then [] else n.ops)
     let mut inst : Inst := default
@@ -342,15 +394,36 @@ def translate (c : Ctx) (post : Bool) (nodes : Array Node) (twinOf : Nat → Opt
         match a with
         | .reg name .. =>
           if post then
-            match abiLoc c (pn.locs.getD i "?") with
+            let ls := pn.locs.getD i "?"
+            if ls.endsWith "i" then
+              -- by reference: the register holds `lea reg, [sp + X]` (tracked in `addrOf`); the callee reads slot X
+              match physLoc (ls.dropEnd 1).toString with
+              | some r => match addrOf.lookup r with
+                | some sl => reads := reads ++ [sl]
+                | none => throw s!"unsupported by-reference argument: {ls} does not hold a known stack address"
+              | none => throw s!"unsupported by-reference argument location {ls}"
+            else
+            match abiLoc c ls with
             | some l => reads := reads ++ [l]
-            | none => throw s!"unsupported argument location {pn.locs.getD i "?"}"
+            | none => throw s!"unsupported argument location {ls}"
           else
             match virtLoc name with
             | some l => reads := reads ++ [l]
             | none => throw "unsupported physical register as call argument"
           ks := ks ++ ["r"]
-        | .imm v => ks := ks ++ [s!"i{v}"]
+        | .imm v =>
+          -- an immediate argument: the virtual program gets `K := const v` in front of the call and the call reads K;
+          -- the allocated program reads the ABI location, which the allocator's own `mov loc, imm` (a const instruction) fills
+          let val := immValue v c.word
+          if post then
+            match abiLoc c (pn.locs.getD i "?") with
+            | some l => reads := reads ++ [l]
+            | none => throw s!"unsupported argument location {pn.locs.getD i "?"}"
+          else
+            let k := constBase + 2 * (n.tag * 16 + i) + (if val < 2 ^ 32 then 0 else 1)
+            out := { out with insts := out.insts.push (.op (constKey val) [] [k] [] false false), tags := out.tags.push (10000000 + n.tag * 16 + i) }
+            reads := reads ++ [k]
+          ks := ks ++ ["r"]
         | _ => ks := ks ++ ["-"]
         i := i + 1
       let mut writes : List Nat := []
@@ -409,9 +482,46 @@ def translate (c : Ctx) (post : Bool) (nodes : Array Node) (twinOf : Nat → Opt
         | none => { t with bad := some "extra register" }
       if let some b := t.bad then throw s!"unsupported {n.name}: {b}"
       if post then spairs := spairs ++ stackPairs n.ops twOps
+      -- register lists that must be consecutive (RW info: lead count on the first register, kConsecutive on the others; tbl/tbx
+      -- lists by the validator's own rule): the register numbers relative to the lead are part of the key, the virtual program
+      -- carries the numbers the ISA requires (+1, +2, ..), so a list the allocator did not make consecutive is refused.
+      let regId (nm : String) : Nat := match splitOn1 nm '.' with | [_, i] => i.toNat?.getD 0 | _ => 0
+      let isTbl := !c.x86 && (n.name == "tbl" || n.name == "tbx")
+      let listOps : List (String × Bool × Bool) := n.ops.filterMap fun o => match o with
+        | .reg nm _ _ fl _ _ _ _ es => some (nm, ((splitOn1 es ':').any (·.startsWith "c")), fl &&& 8 != 0)
+        | _ => none
+      let consKey : List String := Id.run do
+        let mut lead : Option Nat := none
+        let mut k := 0
+        let mut ks : List String := []
+        let mut idx := 0
+        for (nm, isLead, isCons) in listOps do
+          let tblLead := isTbl && idx == 1
+          let tblNext := isTbl && idx ≥ 2 && idx + 1 < listOps.length
+          if isLead || tblLead then
+            lead := some (regId nm); k := 0
+          else if isCons || tblNext then
+            k := k + 1
+            ks := ks ++ [if post then s!"+{((regId nm) + 32 - (lead.getD 0)) % 32}" else s!"+{k}"]
+          idx := idx + 1
+        return ks
+      -- a lead that announces more registers than the instruction lists (x86 mask pairs): the rest is clobbered
+      let implicitCl : List Nat := if !post then [] else n.ops.flatMap fun o => match o with
+        | .reg nm _ _ _ _ _ _ _ es =>
+          let cnt := ((splitOn1 es ':').filterMap fun f => if f.startsWith "c" then (f.drop 1).toString.toNat? else none).headD 0
+          let followers := (listOps.filter (·.2.2)).length
+          if cnt > followers + 1 then
+            match physLoc nm with
+            | some l => (List.range (cnt - 1 - followers)).map fun j => l + followers + 1 + j
+            | none => []
+          else []
+        | _ => []
       let reads := t.reads ++ flagLocs n.rfl
       let writes := t.writes ++ flagLocs n.wfl
-      let key := keyStr name n t.key
+      let key := keyStr name n (t.key ++ consKey)
+      if !post && n.cf == 0 && n.extra == "-" && !t.mem && t.writes.length == 1 && !(t.key.any fun k => k == "zero" || k == "keep" || k == "ones" || k == "same") then
+        if let some r := mkRecipe n.name n.ops t.reads.length then
+          if (out.recipes.lookup key).isNone then out := { out with recipes := (key, r) :: out.recipes }
       let lastLabel : Option Nat := match n.ops.getLast? with | some (.label id) => some id | _ => none
       if n.cf == 4 then
         if post then inst := .ret retLocs else throw "unsupported: ret instruction in the virtual program"
@@ -420,7 +530,7 @@ def translate (c : Ctx) (post : Bool) (nodes : Array Node) (twinOf : Nat → Opt
         if n.ann != "-" then
           let ids := (splitOn1 n.ann '.').map String.toNat!
           let ts ← ids.mapM target
-          inst := .jtab key reads ts
+          inst := .jtab (key ++ s!" jt{ts.length}") reads ts
         else match lastLabel with
           | some id => inst := .jmp (← target id)
           | none => throw "unsupported: indirect jump without annotation"
@@ -486,8 +596,8 @@ def translate (c : Ctx) (post : Bool) (nodes : Array Node) (twinOf : Nat → Opt
           if preFull then
             match shapeMove with
             | some (d, s, sz) => inst := .move d s sz
-            | none => inst := .op key reads writes [] t.mem false
-          else inst := .op key reads writes [] t.mem false
+            | none => inst := .op key reads writes implicitCl t.mem false
+          else inst := .op key reads writes implicitCl t.mem false
         else
           -- inserted by the allocator
           if n.name == "xchg" then
@@ -500,6 +610,44 @@ def translate (c : Ctx) (post : Bool) (nodes : Array Node) (twinOf : Nat → Opt
           else match shapeMove with
             | some (d, s, sz) => inst := .move d s sz
             | none =>
+              -- `mov loc, imm` (immediate call argument materialised by the allocator)
+              let constInst : Option Inst := match n.ops with
+                | [.reg an _ asz afl _ awm aem _ _, .imm v] =>
+                  if n.name == "mov" && afl &&& 3 == 2 && n.wfl == 0 && (byteMask asz &&& ((awm ||| aem) ^^^ (2 ^ 64 - 1))) == 0 then
+                    (physLoc an).map fun l => .op (constKey (immValue v asz)) [] [l] [] false false
+                  else none
+                | [.mem msz _ mb mi md mfl, .imm v] =>
+                  if n.name == "mov" && mi == "-" && mfl &&& 3 == 2 && msz != 0 then
+                    (slotLoc c mb md).map fun l => .op (constKey (immValue v msz)) [] [l] [] false false
+                  else none
+                | _ => none
+              -- `lea reg, [sp + X]`: reg holds the address of slot X;  `mov [reg], src` with such a reg: a store into slot X
+              let leaSlot : Option (Nat × Nat) := match n.ops with
+                | [.reg an .., .mem _ _ mb mi md _] => if (n.name == "lea" || n.name == "add") && mi == "-" then
+                    match physLoc an, slotLoc c mb md with | some r, some sl => some (r, sl) | _, _ => none else none
+                | _ => none
+              let viaAddr : Option Inst := match n.ops with
+                | [.mem msz _ mb mi md mfl, .reg bn _ bsz bfl ..] =>
+                  if (isMoveName c.x86 n.name || isMemMoveName c.x86 n.name) && mi == "-" && md == 0 && mfl &&& 3 == 2 && bfl &&& 3 == 1 then
+                    match physLoc mb, physLoc bn with
+                    | some r, some src => (addrOf.lookup r).map fun sl => .move sl src (min (moveCap n.name) (if msz == 0 then bsz else msz))
+                    | _, _ => none
+                  else none
+                | _ => none
+              if let some ci := constInst then
+                inst := ci
+                out := { out with insts := out.insts.push inst, tags := out.tags.push n.tag }
+                addrOf := addrOf.filter fun x => !(match ci with | .op _ _ ws _ _ _ => ws.contains x.1 | _ => false)
+                continue
+              if let some vi := viaAddr then
+                inst := vi
+                out := { out with insts := out.insts.push inst, tags := out.tags.push n.tag }
+                continue
+              if let some (r, sl) := leaSlot then
+                addrOf := (r, sl) :: addrOf.filter (·.1 != r)
+                inst := .op key [] writes [] false false
+                out := { out with insts := out.insts.push inst, tags := out.tags.push n.tag }
+                continue
               -- frame / constant instruction: only what it writes matters; it must not touch user memory
               let slotWrites := n.ops.filterMap fun o => match o with
                 | .mem _ _ mb mi md mfl => if mfl.testBit 1 && mi == "-" then slotLoc c mb md else none
@@ -509,7 +657,14 @@ def translate (c : Ctx) (post : Bool) (nodes : Array Node) (twinOf : Nat → Opt
                 | _ => false
               if userMem then throw s!"unsupported inserted instruction {n.name} touches memory"
               inst := .op key [] (writes ++ slotWrites) [] false false
-    out := { insts := out.insts.push inst, tags := out.tags.push n.tag }
+    if post then
+      let ws : List Nat := match inst with
+        | .op _ _ ws cs _ _ => ws ++ cs
+        | .move d _ _ => [d]
+        | .swap a b _ => [a, b]
+        | _ => []
+      addrOf := addrOf.filter fun x => !(ws.contains x.1) && !(ws.contains x.2)
+    out := { out with insts := out.insts.push inst, tags := out.tags.push n.tag }
   return (out, spairs)
 
 /-! ### certificate (untrusted) -/
@@ -528,7 +683,12 @@ def succs (c : Ctx) (pre post : Prog2) (p q : Nat) (E : Rel) : Except String (Li
     let tP := pre.tags.getD p 0
     let tQ := post.tags.getD q 0
     let isRetPair := match iP, iQ with | .ret _, .ret _ => true | _, _ => false
-    if (tQ != 0 && tP == tQ) || isRetPair then
+    let preDeleted := tP != 0 && tP < 10000000 && tP != tQ && !(post.tags.contains tP)
+    if preDeleted && (match iP with | .move .. => true | _ => false) then
+      match iP with
+      | .move dP sP _ => .ok ([(p + 1, q, preMoveE E dP sP)], true)
+      | _ => .error "deleted"
+    else if (tQ != 0 && tP == tQ) || isRetPair then
       match iP, iQ with
       | .op _ _ wP cP _ _, .op _ _ wQ cQ _ _ => .ok ([(p + 1, q + 1, twinE E wQ cQ wP cP)], false)
       | .move dP _ _, .move dQ _ _ => .ok ([(p + 1, q + 1, (dQ, dP) :: kill E [dQ] [dP])], false)
@@ -537,6 +697,12 @@ def succs (c : Ctx) (pre post : Prog2) (p q : Nat) (E : Rel) : Except String (Li
       | .jtab _ _ tsP, .jtab _ _ tsQ => .ok ((tsP.zip tsQ).map (fun x => (x.1, x.2, E)), false)
       | .ret _, .ret _ => .ok ([], false)
       | _, _ => .error s!"twin instructions of different kinds at {p}/{q}"
+    else if tQ == 0 && (match iP, iQ with
+        | .op kP [] _ [] false false, .op kQ [] _ [] false false => kP == kQ && kP.startsWith "const "
+        | _, _ => false) then
+      match iP, iQ with
+      | .op _ _ wP cP _ _, .op _ _ wQ cQ _ _ => .ok ([(p + 1, q + 1, twinE E wQ cQ wP cP)], false)
+      | _, _ => .error "const"
     else if tQ == 0 then
       match iQ with
       | .move d s sz => .ok ([(p, q + 1, moveE c.vsz E d s sz)], true)
@@ -547,7 +713,8 @@ def succs (c : Ctx) (pre post : Prog2) (p q : Nat) (E : Rel) : Except String (Li
     else
       match iP with
       | .move dP sP _ => .ok ([(p + 1, q, preMoveE E dP sP)], true)
-      | _ => .error s!"allocated program is at tag {tQ} but the virtual program at tag {tP} ({p}/{q})"
+      | _ => if tP ≥ 10000000 then .error s!"unsupported: immediate call argument {tP - 10000000} is not materialised by a single instruction"
+             else .error s!"allocated program is at tag {tQ} but the virtual program at tag {tP} ({p}/{q})"
   | _, _ => .error s!"fell off the program at {p}/{q}"
 
 partial def fixpoint (c : Ctx) (pre post : Prog2) (work : List (Nat × Nat × Rel)) (tab : Array (List WEntry)) (fuel : Nat) :
@@ -585,11 +752,134 @@ partial def measure (c : Ctx) (pre post : Prog2) (tab : Array (List WEntry)) (p 
 
 def dedup (l : List Nat) : List Nat := l.foldl (fun acc x => if acc.contains x then acc else acc ++ [x]) []
 
-def process (line : String) : String :=
-  let ts := Driver.words line
+/-! ### stack slots must not overlap (checked from the dumped operands and frame data, not assumed) -/
+
+/-- (slot location, bytes, user stack area?) of every sp/fp-relative operand of the allocated program; for a user area
+    access the location is the *start of the area* and the size the size of the area -/
+def slotAccesses (c : Ctx) (postN : Array Node) (twinOf : Nat → Option Node) : List (Nat × Nat × Bool) :=
+  postN.toList.flatMap fun n =>
+    if n.kind == 'C' then
+      n.locs.filterMap fun l => if l.startsWith "s" && !l.endsWith "i" then (abiLoc c l).map fun sl => (sl, c.word, false) else none
+    else if n.kind != 'I' then [] else
+    let regSize : Nat := (n.ops.findSome? fun o => match o with | .reg _ _ sz .. => some sz | _ => none).getD c.word
+    let twOps : List Opd := if n.tag != 0 then (match twinOf n.tag with | some t => t.ops | none => []) else []
+    (List.range n.ops.length).filterMap fun j =>
+      match n.ops.getD j .none with
+      | .mem msz _ mb mi md _ =>
+        if mi != "-" then none else
+        match slotLoc c mb md with
+        | none => none
+        | some sl =>
+          match twOps.getD j .none with
+          | .mem _ _ tb _ d0 _ =>
+            if tb.startsWith "h" then
+              let vid := (tb.drop 1).toString.toNat?.getD 0
+              some ((Int.toNat (Int.ofNat sl - d0)), c.vsize.getD vid 0, true)
+            else some (sl, (if msz != 0 then msz else min (moveCap n.name) regSize), false)
+          | _ => some (sl, (if msz != 0 then msz else min (moveCap n.name) regSize), false)
+      | _ => none
+
+def overlapping (acc : List (Nat × Nat × Bool)) : Option String :=
+  let locs := dedup' (acc.filter (!·.2.2)) []
+  let areas := dedup' (acc.filter (·.2.2)) []
+  let ov (a sa b sb : Nat) : Bool := a < b + sb && b < a + sa
+  match (locs.findSome? fun (a, sa, _) => locs.findSome? fun (b, sb, _) => if a != b && ov a sa b sb then some (a, sa, b, sb) else none) with
+  | some (a, sa, b, sb) => some s!"stack slots {a}+{sa} and {b}+{sb} overlap"
+  | none =>
+    match (locs.findSome? fun (a, sa, _) => areas.findSome? fun (b, sb, _) => if ov a sa b sb then some (a, sa, b, sb) else none) with
+    | some (a, sa, b, sb) => some s!"stack slot {a}+{sa} overlaps the user stack area {b}+{sb}"
+    | none => none
+where
+  dedup' : List (Nat × Nat × Bool) → List (Nat × Nat × Bool) → List (Nat × Nat × Bool)
+    | [], acc => acc
+    | x :: xs, acc => if acc.contains x then dedup' xs acc else dedup' xs (x :: acc)
+
+/-! ### differential mode: both programs on the Lean abstract machine under a concrete interpretation -/
+
+def M64 : Nat := 2 ^ 64
+def hashMix (h x : Nat) : Nat := (((h ^^^ ((x + 0x9E3779B97F4A7C15 + (h <<< 6) % M64 + (h >>> 2)) % M64)) % M64) * 0xD6E8FEB86659FD93) % M64
+def hashList (seed : Nat) (xs : List Nat) : Nat := xs.foldl hashMix seed
+def strHash (s : String) : Nat := s.foldl (fun h ch => hashMix h ch.toNat) 1469598103934665603
+
+def keyName (key : String) : String := (key.splitOn " ").headD ""
+
+def evalRecipe (r : Recipe) (ins : List Nat) : Nat :=
+  let m := 2 ^ (8 * r.size)
+  let v (x : Option Nat × Int) : Nat := match x.1 with | some k => (ins.getD k 0) % m | none => (x.2 % (m : Int)).toNat
+  let a := v (r.srcs.getD 0 (none, 0))
+  let b := v (r.srcs.getD 1 (none, 0))
+  let c3 := v (r.srcs.getD 2 (none, 0))
+  let d4 := v (r.srcs.getD 3 (none, 0))
+  let n := r.srcs.length
+  let bin (f : Nat → Nat → Nat) : Nat := if n == 2 then f a b else f b c3     -- x86: d := d op s ; a64: d := s op t
+  let sh := 8 * r.size
+  (match r.name with
+   | "mov" => b
+   | "add" => bin (· + ·)
+   | "sub" => bin (fun x y => x + m - y)
+   | "and" => bin (· &&& ·)
+   | "or" | "orr" => bin (· ||| ·)
+   | "xor" | "eor" => bin (· ^^^ ·)
+   | "imul" | "mul" => bin (· * ·)
+   | "shl" | "lsl" => bin (fun x y => x <<< (y % sh))
+   | "shr" | "lsr" => bin (fun x y => x >>> (y % sh))
+   | "madd" => b * c3 + d4
+   | "neg" => if n == 1 then m - a else m - b
+   | "not" => m - 1 - a
+   | "mvn" => m - 1 - b
+   | "inc" => a + 1
+   | "dec" => a + m - 1
+   | _ => 0) % m
+
+def mkInterp (recipes : List (String × Recipe)) : Interp Nat where
+  eval key ins i :=
+    if key.startsWith "const " then (key.drop 6).toString.toNat?.getD 0
+    else match (if i == 0 then recipes.lookup key else none) with
+      | some r => evalRecipe r ins
+      | none => hashList (hashMix (strHash key) i) ins
+  evalMem key ins := hashList (hashMix (strHash key) 7777) ins
+  junk key ins i := hashList (hashMix (strHash key) (100000 + i)) ins
+  cond key vals :=
+    let nm := keyName key
+    let w32 := (key.splitOn " r5/4/").length > 1
+    let v0 := if w32 then (vals.headD 0) % 2 ^ 32 else vals.headD 0
+    if nm == "cbz" then v0 == 0 else if nm == "cbnz" then v0 != 0
+    else (hashList (strHash key) vals >>> 17) % 2 == 1
+  sel key vals :=
+    let n := ((key.splitOn " jt").getLast?.bind String.toNat?).getD 1
+    (hashList (strHash key) vals >>> 11) % (max n 1)
+
+structure RunOut where
+  events : List (String × List Nat) := []
+  outcome : String := "running"
+  hashed : List String := []
+  steps : Nat := 0
+
+partial def runProg (I : Interp Nat) (recipes : List (String × Recipe)) (prog : Prog) (s : State Nat) (fuel : Nat) (acc : RunOut) : RunOut :=
+  if fuel == 0 then acc else
+  let acc := match prog[s.pc]? with
+    | some (.op key _ ws _ mem ev) =>
+      let conc := key.startsWith "const " || (recipes.lookup key).isSome
+      let nm := keyName key
+      if !conc && !ev && (mem || ws.any (· < flagBase)) && !acc.hashed.contains (nm ++ (if mem then "(mem)" else "")) && acc.hashed.length < 12 then { acc with hashed := acc.hashed ++ [nm ++ (if mem then "(mem)" else "")] } else acc
+    | _ => acc
+  match step I prog s with
+  | .next s' ev =>
+    let acc := match ev with | some e => { acc with events := acc.events ++ [(e.key, e.args)] } | none => acc
+    runProg I recipes prog s' (fuel - 1) { acc with steps := acc.steps + 1 }
+  | .done vals m => { acc with outcome := s!"ret {vals.map Driver.toHex} mem={Driver.toHex m}" }
+  | .stuck => { acc with outcome := "stuck" }
+
+structure Prep where
+  c : Ctx
+  pre : Prog2
+  post : Prog2
+  aP : List Nat
+  aQ : List Nat
+
+def prepare (ts : List String) : Except String Prep :=
   match ts with
-  | "ok" :: "ARCH" :: arch :: "VREGS" :: vregs :: "ARGS" :: args :: "PRE" :: rest =>
-    let r : Except String String := do
+  | "ok" :: "ARCH" :: arch :: "VREGS" :: vregs :: "ARGS" :: args :: "PRE" :: rest => do
       let (preN, rest) ← parseNodes rest #[]
       let rest := rest.dropWhile (· != "POST")
       let (postN, _) ← parseNodes (rest.drop 1) #[]
@@ -603,7 +893,11 @@ def process (line : String) : String :=
       let saSp := fval "sa_sp="
       let saSa := fval "sa_sa="
       let saReg := (fval "sa_reg=").toNat
-      let c : Ctx := { x86, spId := if x86 then 4 else 31, fpId := if hasFp then (if x86 then 5 else 29) else 9999, vsize, vstack }
+      let c : Ctx := { x86, spId := if x86 then 4 else 31, fpId := if hasFp then (if x86 then 5 else 29) else 9999, vsize, vstack,
+                       word := if arch == "x86" then 4 else 8 }
+      if let some i := ts.findIdx? (· == "SER") then
+        let st := ts.getD (i + 1) "?"
+        if st != "ok" then throw s!"sererr the allocated function cannot be serialized: {st}"
       -- return locations: all FuncRet nodes must agree
       let retLists := preN.toList.filterMap fun n => if n.kind == 'R' then some n.locs else none
       let retLocS := retLists.headD []
@@ -616,6 +910,7 @@ def process (line : String) : String :=
       for (a, d0, d1) in spairs do
         for (a', d0', d1') in spairs do
           if a == a' && d1 - d0 != d1' - d0' then throw s!"reject stack area {a} is addressed with two different offsets"
+      if let some m := overlapping (slotAccesses c postN twinOf) then throw s!"reject {m}"
       -- arguments
       let argPairs ← (if args == "-" then [] else splitOn1 args ',').filterMapM fun s =>
         match splitOn1 s ':' with
@@ -632,15 +927,54 @@ def process (line : String) : String :=
           | some pv, some pl => .ok (some (pv, pl))
           | _, _ => .error s!"unsupported argument {s}"
         | _ => .error "args"
-      let aP := argPairs.map (·.1)
-      let aQ := argPairs.map (·.2)
+      return { c, pre, post, aP := argPairs.map (·.1), aQ := argPairs.map (·.2) }
+  | _ => .error "unsupported malformed dump"
+
+def oneLine (s : String) : String := String.ofList (s.toList.map fun ch => if ch == '\n' then ' ' else ch)
+
+/-- differential run of the two IR programs: `differ ...` with the first input on which the observations differ -/
+def differential (pr : Prep) (seed runs : Nat) : String :=
+  let I := mkInterp pr.pre.recipes
+  let go := (List.range runs).findSome? fun r =>
+    let h0 := hashMix (seed + 1) r
+    let vals := (List.range pr.aP.length).map fun i =>
+      let h := hashMix h0 i
+      match h % 7 with | 0 => 0 | 1 => 1 | 2 => M64 - 1 | 3 => h % 65536 | 4 => 2 ^ 63 | _ => h
+    let mem := hashMix h0 99
+    let sP : State Nat := { pc := 0, regs := assign (fun _ => 0xD0D0D0D0) pr.aP (fun i => vals.getD i 0), mem }
+    let sQ : State Nat := { pc := 0, regs := assign (fun l => hashMix 0xBADC0FFE l) pr.aQ (fun i => vals.getD i 0), mem }
+    let oP := runProg I pr.pre.recipes pr.pre.insts sP 300000 {}
+    let oQ := runProg I pr.pre.recipes pr.post.insts sQ 600000 {}
+    if oP.outcome == "running" || oQ.outcome == "running" then none
+    else if oP.outcome == oQ.outcome && oP.events == oQ.events then none
+    else
+      let nEv := (oP.events.zip oQ.events).takeWhile (fun x => x.1 == x.2) |>.length
+      some s!"differ input={vals.map Driver.toHex} mem={Driver.toHex mem} virtual: {oP.outcome} calls={oP.events.length} allocated: {oQ.outcome} calls={oQ.events.length} common_calls={nEv} steps={oP.steps}/{oQ.steps} uninterpreted={oP.hashed}"
+  match go with
+  | some m => oneLine m
+  | none => s!"same runs={runs}"
+
+def process (line : String) : String :=
+  let ts0 := Driver.words line
+  let (mode, ts) := match ts0 with | "diff" :: r => ("diff", r) | r => ("validate", r)
+  match ts with
+  | "raerr" :: r => "raerr " ++ String.intercalate " " r
+  | _ =>
+    let r : Except String String := do
+      let pr ← prepare ts
+      if mode == "diff" then return differential pr 1 24
+      let c := pr.c
+      let pre := pr.pre
+      let post := pr.post
+      let aP := pr.aP
+      let aQ := pr.aQ
       let E0 : Rel := aQ.zip aP
       let tab ← fixpoint c pre post [(0, 0, E0)] (Array.replicate post.insts.size []) 2000000
       let cert : Cert := (List.range tab.size).toArray.map fun q =>
         (tab[q]!).map fun e => { p := e.p, d := measure c pre post tab e.p q 100000, E := e.E }
       let pairs := cert.foldl (fun n es => n + es.length) 0
       let ins := post.tags.foldl (fun n t => if t == 0 then n + 1 else n) 0
-      let del := pre.insts.size + ins - post.insts.size
+      let del := (pre.tags.toList.filter fun t => t < 10000000 && !post.tags.contains t).length
       if validate c.vsz pre.insts post.insts aP aQ cert then
         return s!"valid pre={pre.insts.size} post={post.insts.size} pairs={pairs} ins={ins} del={del}"
       else
@@ -652,12 +986,9 @@ def process (line : String) : String :=
           let eE := ((cert[q]!).find? (fun e => e.p == p)).map (·.E) |>.getD []
           throw s!"reject pair {p}/{q} tag {post.tags.getD q 0}: {repr (post.insts.getD q default)} VS {repr (pre.insts.getD p default)} E={eE.take 80}"
         | none => throw "reject entry or argument relation"
-    let oneLine (s : String) : String := String.ofList (s.toList.map fun ch => if ch == '\n' then ' ' else ch)
     match r with
     | .ok s => s
-    | .error m => oneLine (if m.startsWith "unsupported" || m.startsWith "reject" then m else "reject " ++ m)
-  | "raerr" :: r => "raerr " ++ String.intercalate " " r
-  | _ => "unsupported malformed dump"
+    | .error m => oneLine (if m.startsWith "unsupported" || m.startsWith "reject" || m.startsWith "sererr" then m else "reject " ++ m)
 
 def main : IO Unit := do
   let stdin ← IO.getStdin
